@@ -157,6 +157,7 @@ PROPS["C05"] = {
         {"test": "TestC05", "kind": "rapid",
          "quick": {"checks": 15000, "shards": 4, "shrink": "15s"}, "thorough": {"checks": 120000, "shards": 16}},
         {"test": "TestC05NameKeyCollide", "kind": "rapid", "quick": {"checks": 6000, "shards": 1}, "thorough": {"checks": 80000, "shards": 4}},
+        {"test": "TestC05DynamicCache", "kind": "rapid", "quick": {"checks": 6000, "shards": 1}, "thorough": {"checks": 100000, "shards": 4}},
     ],
     "min_nontrivial": {"quick": 300, "thorough": 5000},
 }
@@ -260,6 +261,7 @@ PROPS["C06"] = {
         {"test": "TestC06Seeds", "kind": "enum", "quick": {"shards": 1}, "thorough": {"shards": 1}},
         {"test": "TestC06Long", "kind": "enum", "quick": {"shards": 2}, "thorough": {"shards": 4}},
         {"test": "TestC06Dynamic", "kind": "enum", "quick": {"shards": 4}, "thorough": {"shards": 8}},
+        {"test": "TestC06Chains", "kind": "enum", "quick": {"shards": 1}, "thorough": {"shards": 1}},
         {"test": "TestC06Grammar", "kind": "rapid", "quick": {"checks": 10000, "shards": 4, "shrink": "15s"}, "thorough": {"checks": 150000, "shards": 8}},
         {"test": "TestC06Corrupt", "kind": "rapid", "quick": {"checks": 15000, "shards": 4, "shrink": "15s"}, "thorough": {"checks": 300000, "shards": 8}},
         {"test": "FuzzC06", "kind": "fuzz", "thorough": {"fuzztime": 600}},
